@@ -163,6 +163,10 @@ func runC16(c *Ctx, cases []*C16Case) bool {
 				c.Inconclusive("generation timed out")
 				continue
 			}
+			if r.Gen.EnvironmentFailure() {
+				c.Infra("variant %s: the yaccgo CLI failed for a reason that is not its verdict on the grammar (exit %d): %s", v.Name, r.Gen.Exit, clip(r.Gen.Stderr, 300))
+				return true
+			}
 			if r.Gen.Failed() {
 				// accepted for one variant, refused for another: not a complete program for that variant
 				msg := fmt.Sprintf("variant %s: generation failed (%s) although other variants of the same grammar were generated\n%s", v.Name, clip(firstPanicLine(r.Gen.Stderr), 200), cs.Text)
